@@ -209,7 +209,39 @@ def detect_flags(repo) -> dict:
         rollback = True
     else:
         raise RuntimeError("Entity.__init__: unrecognised shape around map_attributes")
-    return {"guard_cells": guard, "skip_valueless": skip, "read_empty": read_empty, "copy_text": copy_text, "add_rollback": rollback}
+    # (6) H5Writer.write_data_values: can a zero-length text array be written?  pinned: `isinstance(entity, TextData) and not
+    # isinstance(values[0], bytes)` (IndexError on an empty array); repaired: the test also admits len(values) == 0 and the
+    # branch gives create_dataset an explicit dtype
+    tree = ast.parse((repo / "geoh5py/io/h5_writer.py").read_text())
+    fn = None
+    for node in ast.walk(tree):
+        if isinstance(node, ast.FunctionDef) and node.name == "write_data_values":
+            fn = node
+    if fn is None:
+        raise RuntimeError("H5Writer.write_data_values not found")
+
+    def mentions_textdata(t):
+        return any(isinstance(x, ast.Name) and x.id == "TextData" for x in ast.walk(t))
+
+    branches = [n for n in ast.walk(fn) if isinstance(n, ast.If) and mentions_textdata(n.test)
+                and any(isinstance(x, ast.Subscript) and isinstance(x.value, ast.Name) and x.value.id == "values" for x in ast.walk(n.test))]
+    if len(branches) != 1:
+        raise RuntimeError("write_data_values: expected one TextData branch testing values[0]")
+    br = branches[0]
+    t = br.test
+    if not (isinstance(t, ast.BoolOp) and isinstance(t.op, ast.And) and len(t.values) == 2):
+        raise RuntimeError("write_data_values: unrecognised TextData test")
+    second = t.values[1]
+    if isinstance(second, ast.UnaryOp) and isinstance(second.op, ast.Not):
+        write_empty = False
+    elif (isinstance(second, ast.BoolOp) and isinstance(second.op, ast.Or)
+          and any(isinstance(x, ast.Call) and isinstance(x.func, ast.Name) and x.func.id == "len" for x in ast.walk(second.values[0]))
+          and any(isinstance(x, ast.Subscript) and isinstance(x.value, ast.Name) and x.value.id == "kwargs" for b in br.body for x in ast.walk(b))):
+        write_empty = True
+    else:
+        raise RuntimeError("write_data_values: unrecognised TextData test")
+    return {"guard_cells": guard, "skip_valueless": skip, "read_empty": read_empty, "copy_text": copy_text, "add_rollback": rollback,
+            "write_empty_text": write_empty}
 
 
 def regenerate(repo):
@@ -222,9 +254,10 @@ def _flags_term():
     global _FLAGS
     if _FLAGS is None:
         _FLAGS = detect_flags(C.REPO)
-    return "{| f_guard_cells := %s; f_skip_valueless := %s; f_read_empty := %s; f_copy_text := %s; f_add_rollback := %s |}" % (
+    return ("{| f_guard_cells := %s; f_skip_valueless := %s; f_read_empty := %s; f_copy_text := %s; f_add_rollback := %s; "
+            "f_write_empty_text := %s |}") % (
         cbool(_FLAGS["guard_cells"]), cbool(_FLAGS["skip_valueless"]), cbool(_FLAGS["read_empty"]), cbool(_FLAGS["copy_text"]),
-        cbool(_FLAGS["add_rollback"]))
+        cbool(_FLAGS["add_rollback"]), cbool(_FLAGS["write_empty_text"]))
 
 
 # ----------------------------------------------------------------------------- specification ledger (oracle + generator)
